@@ -42,13 +42,25 @@ def nontrivial(s):
     return h.get("cas tail", 0) >= 1 or s["casfail"] > 0
 
 
+def _queue_part():
+    """the composition assumption checked in this property's own run: the waiter queue the
+    semaphore is built on (include/mpmc_fifo.h with hazard-pointer reclamation and node reuse)
+    is replayed through the MPMC model, with the scripts and oracle of C13"""
+    import specs_c13
+    src = specs_c13.SPEC["C13"]["parts"][0]
+
+    def gen_q(rng, tier):
+        return src["gen"](rng, tier)[: (2000 if tier == "thorough" else 400)]
+    return {"name": "waiter-queue", "harness": "mpmc", "model": "Mpmc", "gen": gen_q, "post": src.get("post")}
+
+
 SPEC = {
     "C06": {
         "parts": [{"name": "sem", "harness": "sem", "model": "Sem", "runtime": True, "gen": gen,
-                   "nontrivial": nontrivial}],
+                   "nontrivial": nontrivial}, _queue_part()],
         "rule": "cases = (initial value 0-3, script of 2-6 fibers doing wait/trywait/post/yield, 1-3 kernel threads, scheduler kind+seed) from VERIF_SEED; the main fiber posts whenever every unfinished fiber is inside wait and too few units were made available (and the monitor counts those posts); distinct = different (args, sha1 of access sequence); non-trivial = at least one waiter blocked and was enqueued by its successor, or a CAS failed",
         "trusted_base": [
-            "waiter queue (include/mpmc_fifo.h with hazard pointers and the free-node ring buffer) kept abstractly at its two linearisation points (successful tail CAS = enqueue, successful head CAS = dequeue of the oldest entry), node addresses opaque, every logged head/tail value checked against the ghost FIFO; a trypop may return NULL after validating head (superset of the implementation); adequacy for all interleavings is C13 (Mpmc.linearizable) with C14 (Hp.no_reclaim_protected) and C16 (ring buffer of free nodes)",
+            "waiter queue (include/mpmc_fifo.h with hazard pointers and the free-node ring buffer) kept abstractly at its two linearisation points (successful tail CAS = enqueue, successful head CAS = dequeue of the oldest entry), node addresses opaque, every logged head/tail value checked against the ghost FIFO; a trypop may return NULL after validating head (superset of the implementation); adequacy for all interleavings is C13 (Mpmc.linearizable; its correspondence is re-run here as part `waiter-queue`) with C14 (Hp.no_reclaim_protected) and C16 (ring buffer of free nodes)",
             "the deferred push is performed by the next fiber_manager_do_maintenance on the waiter's kernel thread, i.e. after the waiter's context was saved (runtime model, C01: Rt.switch_target_saved)",
             "scheduler traffic on fiber state words is skipped here and covered by the runtime model (C01/C02); a waiter whose state was set READY and that was passed to fiber_manager_schedule does run again (C02)"],
         "assumptions": ["initial value >= 0", "the counter does not wrap (fewer than 2^31 simultaneous waiters / units)"],
